@@ -12,6 +12,12 @@ oracle (on the implementation only): expr(g.leaves) == g.expr(leaves) for g in B
   by harness/refs.py (numpy reference action, itself validated against the Lean spec by C02) using
   each image's DECLARED (k, parity); contract(i,j) == contract(j,i); multicontract is independent
   of the order of the pairs and inside the pairs; A*B == transpose(B*A, block swap).
+get_contraction_indices (the enumeration of "all unique" multicontractions, which drops the
+  reorderings because of that independence): compared with the model contractionIndices for all
+  0 <= final_k <= initial_k <= 6 (thorough 7) of equal parity, with and without swappable pairs, and on
+  rejected arguments; for swappable=() the oracle is the docstring: every element a sorted list of
+  disjoint pairs x<y, no unordered pairing twice, k!/((k-2m)! m! 2^m) of them, and every ordering of
+  a listed pairing contracts a random tensor image (k <= 4) to the same image.
 """
 from __future__ import annotations
 
@@ -586,6 +592,132 @@ def check_laws(ctx: Ctx, geom, jnp, n_cases: int):
                               dict(case, pairs=[list(p) for p in pairs]))
 
 
+def _pairings_count(k: int, m: int) -> int:
+    """number of sets of m disjoint unordered pairs out of k indices: k! / ((k-2m)! m! 2^m)"""
+    from math import factorial
+    return factorial(k) // (factorial(k - 2 * m) * factorial(m) * 2 ** m)
+
+
+def _orderings(idx):
+    """every ordering of the same pairs: all orders of the pairs x all swaps inside the pairs"""
+    import itertools as it
+    out = []
+    for perm in it.permutations(range(len(idx))):
+        for flips in it.product((False, True), repeat=len(idx)):
+            out.append(tuple((idx[q][1], idx[q][0]) if flips[n] else (idx[q][0], idx[q][1])
+                             for n, q in enumerate(perm)))
+    return out
+
+
+def check_contraction_indices(ctx: Ctx, geom):
+    """get_contraction_indices: code vs the model contractionIndices (driver op
+    c05.contraction_indices); for swappable=() the docstring's claim on the implementation: the
+    list consists of normal-form pairings, no pairing twice, none missing (count), and - what the
+    enumeration relies on - all orderings of one listed pairing contract to the same image."""
+    import jax.numpy as jnp
+
+    rng = ctx.rng
+    kmax = 6 if ctx.tier == "quick" else 7
+
+    def real(ik, fk, sw):
+        res = geom.get_contraction_indices(ik, fk, tuple(tuple(p) for p in sw))
+        return [[(int(x), int(y)) for x, y in idx] for idx in res]
+
+    def model(ik, fk, sw):
+        res = ctx.driver.call("c05.contraction_indices", initial_k=ik, final_k=fk, swappable=[list(p) for p in sw])
+        return [[(int(x), int(y)) for x, y in idx] for idx in res]
+
+    for ik in range(0, kmax + 1):
+        for fk in range(ik % 2, ik + 1, 2):
+            m = (ik - fk) // 2
+            sws = [(), ((0, 1),), ((2, 3),), ((0, 1), (2, 3)), ((1, 0),), ((0, 1), (1, 2)), ((3, 0), (1, 2))]
+            sws = [sw for sw in sws if all(max(p) < ik for p in sw)]
+            for _ in range(2 if ctx.tier == "quick" else 6):
+                if ik >= 2:
+                    n = int(rng.integers(1, 4))
+                    sws.append(tuple(tuple(int(v) for v in rng.choice(ik, size=2, replace=False)) for _ in range(n)))
+            for sw in sws:
+                case = {"initial_k": ik, "final_k": fk, "swappable": [list(p) for p in sw]}
+                ctx.case(("contraction_indices", ik, fk, [list(p) for p in sw]), m >= 1)
+                ctx.hist("contraction_indices_m", m)
+                try:
+                    theirs = real(ik, fk, sw)
+                except Exception as e:  # valid arguments: the enumeration must exist
+                    ctx.violation("oracle", f"get_contraction_indices raises on valid arguments: {type(e).__name__}: {e}", case)
+                    continue
+                if sw == ():
+                    # (a) normal form, (b) no pairing twice, (c) none missing
+                    bad = None
+                    for idx in theirs:
+                        flat = [v for p in idx for v in p]
+                        if (len(idx) != m or any(not (0 <= x < y < ik) for x, y in idx)
+                                or len(set(flat)) != 2 * m or list(idx) != sorted(idx)):
+                            bad = f"element {idx} is not a sorted list of {m} disjoint pairs x<y<{ik}"
+                            break
+                    if bad is None:
+                        keys = [frozenset(frozenset(p) for p in idx) for idx in theirs]
+                        if len(set(keys)) != len(keys):
+                            bad = "the same unordered pairing is listed twice"
+                        elif len(theirs) != _pairings_count(ik, m):
+                            bad = f"{len(theirs)} pairings listed, there are {_pairings_count(ik, m)}"
+                    if bad is not None:
+                        ctx.violation("oracle", "get_contraction_indices does not list every contraction exactly once: " + bad,
+                                      dict(case, result=[[list(p) for p in idx] for idx in theirs]))
+                        continue
+                try:
+                    mine = model(ik, fk, sw)
+                except DriverReject as e:
+                    ctx.violation("correspondence", f"the model rejects arguments the implementation accepts ({e})", case)
+                    continue
+                if mine != theirs:
+                    ctx.violation("correspondence", "get_contraction_indices differs from the model contractionIndices",
+                                  dict(case, impl=[[list(p) for p in idx] for idx in theirs],
+                                       model=[[list(p) for p in idx] for idx in mine]))
+    # rejected arguments: the asserts
+    for ik, fk in [(3, 2), (2, 3), (4, 1), (0, 1), (2, 4), (1, 3), (0, 2), (4, -2), (3, -1), (-2, -4), (5, 6)]:
+        case = {"initial_k": ik, "final_k": fk, "swappable": []}
+        ctx.case(("contraction_indices_reject", ik, fk), False)
+        try:
+            real(ik, fk, ())
+            impl_rejects = False
+        except AssertionError:
+            impl_rejects = True
+        try:
+            model(ik, fk, ())
+            model_rejects = False
+        except DriverReject:
+            model_rejects = True
+        if impl_rejects != model_rejects:
+            ctx.violation("correspondence", "asserts of get_contraction_indices: implementation %s, model %s"
+                          % ("rejects" if impl_rejects else "accepts", "rejects" if model_rejects else "accepts"), case)
+    # (d) what the enumeration relies on: one listed pairing, in every ordering, is one contraction
+    d = 2
+    for ik in range(0, MAXK + 1):
+        dims = SHAPES[d][int(rng.integers(len(SHAPES[d])))]
+        A = rng.integers(-2, 3, size=tuple(dims) + (d,) * ik).astype(np.int64)
+        gA = geom.GeometricImage(jnp.array(A, dtype=jnp.float32), 0, d, True)
+        leaves = [{"data": A, "parity": 0, "torus": (True,) * d, "filter": False}]
+        for fk in range(ik % 2, ik - 1, 2):   # at least one pair (the image method asserts k >= 2)
+            try:
+                listed = geom.get_contraction_indices(ik, fk)
+            except Exception:
+                continue  # already reported above
+            for idx in listed:
+                base = gA.multicontract(idx)   # the value as the library hands it out (numpy integers)
+                plain = tuple((int(x), int(y)) for x, y in idx)
+                ctx.case(("contraction_indices_semantic", list(dims), ik, [list(p) for p in plain], A.tobytes().hex()[:32]),
+                         len(plain) >= 1)
+                ctx.hist("law", "contraction_indices_orderings")
+                for other in _orderings(plain):
+                    r = gA.multicontract(other)
+                    if (r.k, r.parity) != (base.k, base.parity) or base.k != fk or \
+                            not np.array_equal(np.asarray(r.data), np.asarray(base.data)):
+                        ctx.violation("oracle", "an ordering of a pairing listed by get_contraction_indices contracts differently",
+                                      {"D": d, "dims": list(dims), "leaves": leaves_json(leaves),
+                                       "listed": [list(p) for p in plain], "other": [list(p) for p in other]})
+                        break
+
+
 def run(ctx: Ctx):
     import jax.numpy as jnp
     import ginjax.geometric as geom
@@ -601,7 +733,10 @@ def run(ctx: Ctx):
         "every third a product involving a pseudo-tensor; |values| are bounded by 2^20 so float32 is exact. "
         "Group elements: all of B_2; 3 reflections + 2 rotations + 1 fixed-point-free element of B_3 (quick) / all 48 "
         "(thorough). Non-trivial tree: depth >= 2 and a result that is not identically zero; distinct = distinct "
-        "(d, shape, tree, result)." % max_depth
+        "(d, shape, tree, result). get_contraction_indices: all (initial_k, final_k) of equal parity with "
+        "0 <= final_k <= initial_k <= 6 (thorough 7), swappable in {(), ((0,1),), ((2,3),), ((0,1),(2,3)), ((1,0),), "
+        "((0,1),(1,2)), ((3,0),(1,2))} (when the indices exist) + random sets of 1-3 pairs; non-trivial = at least "
+        "one pair is contracted." % max_depth
     )
     ctx.assumptions = [
         "integer-valued float32 leaves with bounded products make the implementation's arithmetic exact",
@@ -613,11 +748,14 @@ def run(ctx: Ctx):
         "jnp.einsum with repeated letters, jnp.tensordot(axes=0), jnp.transpose, jnp.linalg.norm, "
         "conv_general_dilated + jnp.pad(wrap) are modelled by mcGo/fill, mulI/outerLC, unperm, normSq, convI",
         "harness/refs.py reference action (validated against the Lean spec actSpec by check C02)",
+        "get_contraction_indices: itertools.combinations, np.unique(axis=0), np.isin/np.where and in-place row "
+        "assignment are modelled by combinations, uniqueRows, locsOf/restoreRow (GinjaxVerif/Model/C05Contr.lean)",
         "convolution nodes: the Lean theorem takes the equivariance of convolution as hypothesis ConvHyp.hConv "
         "(property C01); on the implementation they are covered by the oracle like every other node",
     ]
     check_tables(ctx, geom)
     check_laws(ctx, geom, jnp, 40 if quick else 400)
+    check_contraction_indices(ctx, geom)
     wants = ["oddlc", "pseudoprod", "any", "oddlc", "conv", "any"]
     done = 0
     it = 0
